@@ -221,7 +221,7 @@ pub fn scenarios(tier: Tier) -> Vec<ScenarioDef> {
                 for pending in [0usize, 1] {
                     if tier == Tier::Quick && pending == 1 && !matches!(other, Other::Nothing | Other::Send) { continue }
                     let spec = Spec { uni, multi, other, same_thread, pending };
-                    let bound = match tier { Tier::Quick => 2, Tier::Thorough => 4 };
+                    let bound = match tier { Tier::Quick => 3, Tier::Thorough => 4 };
                     defs.push(ScenarioDef { prop: "C20", family: format!("{kname}/{}{}", other.name(), if same_thread { "-same-thread" } else { "" }), rung: format!("Q{pending}"), rung_idx: pending, max_bound: bound,
                         make: Arc::new(move || { let sp = spec.clone(); match (sp.uni, sp.multi) {
                             (Some(k), _) => crate::dispatch_uni!(k, 4, 1, make_uni(sp)),
